@@ -40,6 +40,9 @@ def gen(ctx):
         sh = r.choice([(0,), (1,), (5,), (2, 2), (1, 2, 2), (0, 2, 1), (3, 1)])
         letters = [r.choice(ALPHABET) for _ in range(r.randint(3, 10 if ctx.quick else 30))]
         cases.append(history_case(r, nt, bo, sh, letters))
+    for i, c in enumerate(cases):
+        if i % 5 == 1:
+            c['iterchunks'] = ('swapped', 'wider')[(i // 5) % 2]
     # truncation indices that are NumPy integers of a narrow type, large enough for the byte offset of the cut
     # to overflow that type (they are refused as non-ints; a change that accepts them must still cut correctly)
     for k, (nt, sh, idx, kind) in enumerate([('float64', (40, 10), 30, 'npuint8'), ('int64', (300,), 200, 'npint16'),
@@ -67,6 +70,11 @@ def run(ctx):
                     layout=case['layout'])
         if isinstance(steps, dict):
             ctx.fail('harness-error', key0, observed=steps)
+            continue
+        if steps and 'creation_failed' in steps[0]:
+            ctx.fail('self-describing', dict(case=case, step=0), detail='creation from an iterator of chunks failed',
+                     expected='an array holding the chunks, cast to the first chunk\'s type',
+                     observed=dict(error=steps[0]['creation_failed'], listing=(steps[0].get('files') or {}).get('listing')))
             continue
         for i, st in enumerate(steps):
             key = dict(key0, step=i)
